@@ -173,6 +173,7 @@ def run_tlc(module, cfg, workers=None, simulate=None, depth=None, seed=None, env
         cmd += ["-coverage", "1"]
     if deadlock is False:
         cmd += ["-deadlock"]
+    cmd += ["-noGenerateSpecTE"]
     cmd.append(module)
     e = dict(os.environ)
     if env:
